@@ -158,10 +158,12 @@ def call_concatenate(args):
 
 
 def pre_subst(text, old_text, new_text, instance_num):
-    return len(old_text) > 0
+    return True
 
 
 def post_substitute_all(text, old_text, new_text, instance_num, result):
+    if len(old_text) == 0:
+        return result == text           # an empty search text occurs nowhere (python's replace would insert everywhere)
     return result == text.replace(old_text, new_text)
 
 
@@ -337,9 +339,9 @@ def bounded(tier, seed, R):
                 R.guard('find/first_match', chk_find, {'f': f, 's': s, 'start': st})
             for inst in (None, 1, 2, 3, 0, -1, True, 'x', '2'):
                 def chk_sub():
-                    r = TX.substitute(s, f, 'Z', inst) if f else None
-                    if not f:
-                        return True
+                    r = TX.substitute(s, f, 'Z', inst)
+                    if not f and (inst is None or (not isinstance(inst, bool) and inst != 'x' and int(inst) > 0)):
+                        return r == s           # an empty search text occurs nowhere
                     if inst is None:
                         return r == s.replace(f, 'Z')
                     if isinstance(inst, bool) or inst == 'x':
